@@ -2,14 +2,51 @@
 from .assign import assign_check
 
 
+def _other_ops(chk):
+    """the terms with user-controlled parts as never-compared snapshots and as `in` snapshots"""
+    from . import assign
+    from .. import assign_replay, pool, tlc
+    from ..checklib import MachineryError
+    for shape in ("seq", "dict", "nest"):
+        ts_mc, ts, st, keep = assign.SIZES[chk.tier][shape]
+        res = tlc.run_tlc("MC_Assign", "Assign_%s.cfg" % shape, workers=16, timeout=3000,
+                          extra_files={"run.cfg": assign._cfg(shape, ["Emit"], {"Mode": "emit", "TStride": ts, "Stride": st * 4, "Offset": chk.seed % 7})})
+        chk.add_tlc(res, "emit Assign_%s (terms for the never-compared / `in` clause)" % shape)
+        try:
+            cases = [c for c in assign_replay.load_cases(res.out_dir, seed=chk.seed, keep_every=1)
+                     if c["A"] == ["update"] and assign_replay.RA.has_tag(c["tm"], {"is", "fs", "sl"})]
+        finally:
+            tlc.cleanup(res)
+        cases = cases[: 3000 if chk.quick else 40000]
+        by_id = {c["id"]: c for c in cases}
+        errors = 0
+        for out in pool.parallel_map(assign_replay._worker_other_ops, [(c, chk.seed) for c in pool.chunks(cases, 30)]):
+            for r in out:
+                if "error" in r:
+                    errors += 1
+                    print("driver error:", r["error"])
+                    continue
+                chk.count(1, "other|" + shape + r["id"])
+                chk.validated(1)
+                for m in r["mism"]:
+                    chk.mismatch(m["clause"], {"clause": m["clause"], "shape": shape, "variant": m.get("variant")},
+                                 {"kind": "assign-other-ops", "case": by_id[r["id"]], "seed": chk.seed, "mismatch": m,
+                                  "module": r["text"]}, props=m["props"])
+        if errors:
+            raise MachineryError("%d replay jobs crashed" % errors)
+
+
 def run():
-    chk = assign_check("C10", shapes=["seq", "nest", "dict", "call"])     # (the shapes flat / pos have no user-controlled parts)
+    chk = assign_check("C10", shapes=["seq", "nest", "dict", "call", "inner"])     # (the shapes flat / pos have no user-controlled parts)
     if isinstance(chk, int):
         return chk
+    _other_ops(chk)
     chk.assumptions += ["dirty-equals is not installed in this sandbox (is_dirty_equal is constantly False): that "
                         "sub-case cannot be exercised"]
     return chk.finish(
         rule="TLC checks that the user-controlled sub-terms (Is, f-string, starred display) of the result are an "
              "ordered selection of the original ones for every approved set; in the replay each such part carries a "
-             "unique id in its source text and must occur unchanged (same syntax tree) wherever the model keeps it; "
-             "non-trivial = at least one pending category")
+             "unique id in its source text and must occur unchanged (same syntax tree) wherever the model keeps it; nested "
+             "snapshot() calls that the model keeps are still there (never edited through their parent); "
+             "the same terms as never-compared snapshots and as `in` snapshots (update / fix+update): the user's parts keep "
+             "their text; non-trivial = at least one pending category")
